@@ -212,7 +212,7 @@ func runC19() {
 			coqStr(kind), em.str(agent), t, em.str(payload), em.strList(rcpts), strings.Join(sc, "; "), strings.Join(sg, ";\n     "), strings.Join(ds, ";\n     "), coqBool(okResult), em.str(body), em.str(errText)))
 		s.Evaluations++
 	}
-	agents := []string{"myapp/1.0", "Mastodon-like (bot; +https://example.com)", "a"}
+	agents := []string{"myapp/1.0", "Mastodon-like (bot; +https://example.com)", "a", "shop%20front/3 (100% federated; %s %d %v)", ""}
 	// single requests: every status, transport errors, signer failures
 	for code := 100; code <= 599; code++ {
 		if *tier == "quick" && code%7 != 0 && code != 200 && code != 201 && code != 202 && code != 203 && code != 199 && code != 204 && code != 404 {
